@@ -20,6 +20,7 @@ type Case struct {
 	// ScaleExp k: Simplify is called on the case multiplied exactly by 2^k (coordinates and tolerance) and its output is
 	// divided by 2^k again before the oracle looks at it, so the oracle's margins stay at unit scale
 	ScaleExp int `json:"scale_exp,omitempty"`
+	noSweep  bool
 }
 
 func randLine(t *rapid.T, maxN int) []vkit.P2 {
@@ -62,8 +63,62 @@ func genTol(t *rapid.T) vkit.F {
 
 func gen(t *rapid.T) Case {
 	var c Case
-	c.Kind = rapid.SampledFrom([]string{"line", "line", "line", "line", "multiline", "polygon", "multipolygon"}).Draw(t, "kind")
+	c.Kind = rapid.SampledFrom([]string{"line", "line", "line", "line", "multiline", "polygon", "multipolygon", "batch"}).Draw(t, "kind")
 	c.Tol = genTol(t)
+	if c.Kind == "batch" {
+		// 40 short lines of 5-9 random points in a 20x20 box with a tolerance of the box's order: the lines on which the
+		// scan overshoots and has to back off (each is simplified and judged on its own; most are not simple and only
+		// count for the clauses that do not need simplicity)
+		// rapid's integer and float generators favour small and boundary values, which makes most such lines degenerate
+		// (collinear, coincident points); the coordinates are therefore a fixed mixing function (splitmix64) of ONE drawn
+		// 64-bit value, i.e. still a pure function of rapid's choices, but uniform over the box
+		x := rapid.Uint64().Draw(t, "boxseed")
+		next := func() uint64 {
+			x += 0x9e3779b97f4a7c15
+			z := x
+			z = (z ^ (z >> 30)) * 0xbf58476d1ce4e5b9
+			z = (z ^ (z >> 27)) * 0x94d049bb133111eb
+			return z ^ (z >> 31)
+		}
+		lattice := next()%2 == 0
+		c.Tol = vkit.F(1 + float64(next()%9))
+		if !lattice {
+			c.Tol = vkit.F(1 + 9*float64(next()>>11)/(1<<53))
+		}
+		grown := next()%4 != 0 // 3 batches in 4: lines grown point by point, each new segment clear of the line so far
+		uni := func() float64 { return 20 * float64(next()>>11) / (1 << 53) }
+		for i := 0; i < 40; i++ {
+			n := 5 + int(next()%5)
+			if grown {
+				n = 8 + int(next()%8)
+				l := []vkit.P2{vkit.MkP(uni(), uni())}
+				for len(l) < n {
+					ok := false
+					for try := 0; try < 20 && !ok; try++ {
+						if cand := vkit.MkP(uni(), uni()); vkit.SegClear(l, cand, 1e-3) {
+							l = append(l, cand)
+							ok = true
+						}
+					}
+					if !ok {
+						break
+					}
+				}
+				c.Lines = append(c.Lines, l)
+				continue
+			}
+			l := make([]vkit.P2, n)
+			for j := range l {
+				if lattice {
+					l[j] = vkit.MkP(float64(next()%21), float64(next()%21))
+				} else {
+					l[j] = vkit.MkP(uni(), uni())
+				}
+			}
+			c.Lines = append(c.Lines, l)
+		}
+		return c
+	}
 	if rapid.IntRange(0, 2).Draw(t, "scaled") == 0 {
 		c.ScaleExp = rapid.OneOf(rapid.IntRange(-40, 40), rapid.IntRange(-300, 300)).Draw(t, "scale_exp")
 	}
@@ -309,6 +364,24 @@ func run(c Case) (v vkit.Verdict) {
 		}
 	}
 	v.Class(c.Kind)
+	if c.Kind == "batch" {
+		for _, l := range c.Lines {
+			sub := run(Case{Kind: "line", Lines: [][]vkit.P2{l}, Tol: c.Tol, Style: "box", noSweep: true})
+			if sub.Bad {
+				sub.Msg = "batch member " + sub.Msg
+				return sub
+			}
+			if sub.NonTrivial {
+				v.NonTrivial = true
+			}
+			for _, k := range sub.Classes {
+				if k == "input_simple" || k == "dropped_vertices" {
+					v.Class("batch_member_" + k)
+				}
+			}
+		}
+		return v
+	}
 	switch c.Kind {
 	case "line", "multiline":
 		var ml, mlS geom.MultiLineString // unscaled (for the oracle) and scaled (what Simplify sees)
@@ -365,7 +438,7 @@ func run(c Case) (v vkit.Verdict) {
 				}
 				// scale sweep (simplicity and end points only): the same line and tolerance multiplied exactly by 2^k for every
 				// second k in -60..60, so that a threshold that only bites at one coordinate magnitude is met by every line
-				if len(c.Lines[i]) <= 60 && !math.IsInf(tol, 0) {
+				if len(c.Lines[i]) <= 60 && !math.IsInf(tol, 0) && !c.noSweep {
 					for k := -60 + ((c.ScaleExp%2)+2)%2; k <= 60; k += 2 {
 						f, fi := math.Ldexp(1, k), math.Ldexp(1, -k)
 						ok := (tol*f)*fi == tol
@@ -455,7 +528,7 @@ func run(c Case) (v vkit.Verdict) {
 func TestProp(t *testing.T) {
 	vkit.Main(t, vkit.Spec[Case]{
 		ID: "C13",
-		Rule: "rapid: line strings of 0-40 vertices (1 in 40: 200-600), in 1 case of 3 handed to Simplify multiplied exactly by 2^k (k in +-40 or +-300; coordinates and tolerance; the output is divided by 2^k again, so the oracle and its margins work at unit scale): simple by construction via self-avoiding growth (random walk, outward/inward spiral, zig-zag, hook that " +
+		Rule: "rapid: batches of 40 lines in a 20x20 box with tolerance 1-10 (1 case in 8; 5-9 uniform random points, or 8-15 points grown one by one with every new segment clear of the line so far - simple, criss-crossing lines on which the scan overshoots and backs off; coordinates are a splitmix64 expansion of one drawn 64-bit value because rapid's own number generators favour small and boundary values), and line strings of 0-40 vertices (1 in 40: 200-600), in 1 case of 3 handed to Simplify multiplied exactly by 2^k (k in +-40 or +-300; coordinates and tolerance; the output is divided by 2^k again, so the oracle and its margins work at unit scale): simple by construction via self-avoiding growth (random walk, outward/inward spiral, zig-zag, hook that " +
 			"curls back over its own chord), arbitrary random/lattice vertex sequences (duplicates, self-crossing), lengths 0,1,2 weighted; tolerance from " +
 			"{0,1e-12,0.5,1,1e9,+Inf} or uniform; multi-line strings, polygons and multi-polygons (star polygons with subdivided edges, random rings). Oracle: " +
 			"termination (watchdog), existence of an increasing index map showing the output is a subsequence keeping first and last vertex with every dropped " +
